@@ -100,14 +100,25 @@ def traced_print(*args, file=None, flush=False, **kw):
         print(*args, file=file, flush=flush, **kw)
 
 
-def text_of(w, g, k=0):
-    return "w%s:%d%s" % (w, g, "" if k == 0 else "#%d" % k)
+def text_of(w, g, k=0, wide=False):
+    base = "w%s:%d%s" % (w, g, "" if k == 0 else "#%d" % k)
+    if not wide:
+        return base
+    # "all single-line texts": the empty text, leading / trailing blanks, characters of 2, 3 and 4 bytes in UTF-8
+    # (character offsets differ from byte offsets)
+    if g % 3 == 0:
+        return "" if (w == 0 and k == 0) else "\U0001d11e" + base
+    if g % 3 == 1:
+        return "  \u00e9 " + base + "  "
+    return "\t" + base + "\u20ac"
 
 
 class Cfg:
     def __init__(self, name, writers, reads, presize=None, reader="process", sequential=False, family=None,
-                 after_flush=(), required=(), parent_ids=(), after_flush_by="parent", open_before_fork=False, long_reader=False):
+                 after_flush=(), required=(), parent_ids=(), after_flush_by="parent", open_before_fork=False, long_reader=False,
+                 wide=False):
         self.name = name
+        self.wide = wide                              # texts: empty, blanks at both ends, multi-byte characters
         self.writers = [list(w) for w in writers]     # per writer: ids to store, in order
         self.reads = list(reads)                      # ids the reader asks for, in order
         self.presize = presize
@@ -126,7 +137,7 @@ class Cfg:
         return {"name": self.name, "writers": self.writers, "reads": self.reads, "presize": self.presize,
                 "reader": self.reader, "sequential": self.sequential, "after_flush": self.after_flush, "parent_ids": self.parent_ids,
                 "after_flush_by": self.after_flush_by, "open_before_fork": self.open_before_fork,
-                "long_reader": self.long_reader}
+                "long_reader": self.long_reader, "wide": self.wide}
 
 
 def make_driver(cfg):
@@ -153,8 +164,8 @@ def make_driver(cfg):
                             seen[g] = k + 1
                             log.add(self.wi, "store-start", g)
                             try:
-                                self.st[g] = text_of(self.wi, g, k)
-                                log.add(self.wi, "store-ok", (g, text_of(self.wi, g, k)))
+                                self.st[g] = text_of(self.wi, g, k, cfg.wide)
+                                log.add(self.wi, "store-ok", (g, text_of(self.wi, g, k, cfg.wide)))
                             except ValueError:
                                 log.add(self.wi, "store-dup", g)
                     finally:
@@ -182,8 +193,8 @@ def make_driver(cfg):
 
             if cfg.parent_ids:
                 for g in cfg.parent_ids:
-                    st[g] = text_of("P", g)
-                    log.add("P", "store-ok", (g, text_of("P", g)))
+                    st[g] = text_of("P", g, 0, cfg.wide)
+                    log.add("P", "store-ok", (g, text_of("P", g, 0, cfg.wide)))
                 st.close()
             if cfg.open_before_fork:
                 st.open()       # all writers inherit this one open file (shared offset), like `with storage:` around a pool
@@ -247,7 +258,7 @@ def make_driver(cfg):
                     res = [("ok", None)] * len(cfg.after_flush)
                 else:
                     for g in cfg.after_flush:
-                        res.append(safe(lambda: st.__setitem__(g, text_of("P", g))))
+                        res.append(safe(lambda: st.__setitem__(g, text_of("P", g, 0, cfg.wide))))
                 st.close()
                 st.reader_only = True
                 with st:
@@ -337,7 +348,7 @@ def judge(cfg, r):
             g, val = e[4]
             st_e = pending_start.get(e[0])
             texts = [x[4][1] for x in oks.get(g, [])]
-            all_texts = {text_of(w, g, k) for w in list(range(len(cfg.writers))) + ["P", "A"] for k in range(3)}
+            all_texts = {text_of(w, g, k, cfg.wide) for w in list(range(len(cfg.writers))) + ["P", "A"] for k in range(3)}
             if val is None:
                 # IndexError is wrong only if a successful store of g happens-before the start of this read
                 for x in oks.get(g, []):
@@ -382,7 +393,7 @@ def judge(cfg, r):
                     v.append(("C14", {"family": fam, "kind": "flush-not-reset", "how": "store-raises"},
                               "%s: storing %r after close()+flush() -> %r" % (cfg.name, cfg.after_flush, fl["after_stores"]), {}))
                 else:
-                    exp = {g: text_of("A" if cfg.after_flush_by == "process" else "P", g) for g in cfg.after_flush}
+                    exp = {g: text_of("A" if cfg.after_flush_by == "process" else "P", g, 0, cfg.wide) for g in cfg.after_flush}
                     for item in check_obs(cfg, fl["after"], exp, "after flush + new stores"):
                         v.append(("C14", dict(item[1], kind="flush-not-reset"), item[2], {}))
                     if fl.get("long_reader") is not None:
@@ -442,6 +453,9 @@ def plan_for(tier):
     plan.append((Cfg("K5[w0:0,1|w1:2,1|R:1,2]", [[0, 1], [2, 1]], [1, 2]), 1 if q else 2, 0, None))
     plan.append((Cfg("K6[parent reads]", [[0], [1]], [1, 0, 1], reader="parent"), b, 0, None))
     plan.append((Cfg("K7[one writer, reader]", [[1, 0]], [0, 1, 0]), None, 0, None))
+    # the text alphabet: empty text, blanks at both ends, multi-byte characters (byte offsets != character offsets)
+    plan.append((Cfg("Kwide[w0:0,1|w1:2,0|R:0,1,2]", [[0, 1], [2, 0]], [0, 1, 2], wide=True), 1 if q else 2, 0, None))
+    plan.append((Cfg("Swide[[0,1,2],[3]]", [[0, 1, 2], [3]], [0, 1, 2, 3], sequential=True, after_flush=[1, 0], wide=True), 0, 0, None))
     if not q:
         ids = [0, 1, 2]
         k = 0
